@@ -150,26 +150,26 @@ Definition index_ok (k : nat) (pb : list N) : bool := (k <=? length pb)%nat.
 Definition hexdig (n : N) : N := if n <? 10 then 48 + n else 87 + n.   (* hexTable[n] *)
 
 (* ---- utf8.DecodeRuneInString: Some (size) on a well-formed prefix, None = (RuneError, 1) ---- *)
-Definition inr (lo hi b : N) : bool := (lo <=? b) && (b <=? hi).
+Definition in_rng (lo hi b : N) : bool := (lo <=? b) && (b <=? hi).
 Definition go_decode_size (s : list N) : option nat :=
   match s with
   | b0 :: t =>
     if b0 <? 128 then Some 1%nat else
-    if inr 194 223 b0 then match t with b1 :: _ => if inr 128 191 b1 then Some 2%nat else None | _ => None end else
-    if inr 224 239 b0 then
+    if in_rng 194 223 b0 then match t with b1 :: _ => if in_rng 128 191 b1 then Some 2%nat else None | _ => None end else
+    if in_rng 224 239 b0 then
       match t with
       | b1 :: b2 :: _ =>
         let lo := if b0 =? 224 then 160 else 128 in
         let hi := if b0 =? 237 then 159 else 191 in
-        if inr lo hi b1 && inr 128 191 b2 then Some 3%nat else None
+        if in_rng lo hi b1 && in_rng 128 191 b2 then Some 3%nat else None
       | _ => None
       end else
-    if inr 240 244 b0 then
+    if in_rng 240 244 b0 then
       match t with
       | b1 :: b2 :: b3 :: _ =>
         let lo := if b0 =? 240 then 144 else 128 in
         let hi := if b0 =? 244 then 143 else 191 in
-        if inr lo hi b1 && inr 128 191 b2 && inr 128 191 b3 then Some 4%nat else None
+        if in_rng lo hi b1 && in_rng 128 191 b2 && in_rng 128 191 b3 then Some 4%nat else None
       | _ => None
       end else None
   | [] => None
